@@ -36,6 +36,32 @@ pub fn main(mode: &str, args: &[String]) {
             let steps: u32 = args[1].parse().unwrap();
             run_case(&mut tr, 0, subseed, steps);
         }
+        "replay" => {
+            // trace(s) on stdin: every case is re-executed from its `act` lines
+            use std::io::BufRead;
+            let stdin = std::io::stdin();
+            let mut header: Option<String> = None;
+            let mut acts: Vec<String> = Vec::new();
+            for line in stdin.lock().lines() {
+                let line = line.unwrap();
+                if line.starts_with("case ") {
+                    header = Some(line);
+                    acts.clear();
+                } else if let Some(a) = line.strip_prefix("act ") {
+                    acts.push(a.to_string());
+                } else if line == "end" {
+                    if let Some(h) = header.take() {
+                        tr.line(&h);
+                        let mut sim = Sim::new(0);
+                        sim.replay(&acts);
+                        for l in &sim.core.lines {
+                            tr.line(l);
+                        }
+                        tr.end();
+                    }
+                }
+            }
+        }
         _ => {
             eprintln!("component core: unknown mode {mode}");
             std::process::exit(2);
